@@ -22,7 +22,7 @@ ASSUMPTIONS = [
     "remotes emulated by a non-local FileSystem over local disk",
 ]
 MONITORS = "os.walk listings of every remote/cache before and after vs independently computed reachable/designated sets; pushed/failed counts vs objects that newly appeared; workspace walk after checkout"
-REQUIRED_COUNTERS = ["fetches_followed_through_a_callback", "cases_with_verifying_remotes", "cases_with_an_empty_prefix", "remote_loss_rounds", "remote_objects_lost", "fetches_from_read_only_remotes", "collect_given_a_view", "layout/tops-only", "layout/root+deep", "layout/root+tops", "lazy_index_cases", "pushes", "fetches", "failure_rounds", "retries", "checkouts_from_fetched_cache", "multi_prefix_cases", "role_fallback_checks",
+REQUIRED_COUNTERS = ["cases_collecting_into_one_cache_index", "fetches_followed_through_a_callback", "cases_with_verifying_remotes", "cases_with_an_empty_prefix", "remote_loss_rounds", "remote_objects_lost", "fetches_from_read_only_remotes", "collect_given_a_view", "layout/tops-only", "layout/root+deep", "layout/root+tops", "lazy_index_cases", "pushes", "fetches", "failure_rounds", "retries", "checkouts_from_fetched_cache", "multi_prefix_cases", "role_fallback_checks",
                      "objects_designation_checked", "shared_cache_cases", "exhaustive_subset_cases", "remote_index_cases"]
 
 
@@ -242,10 +242,18 @@ def run_shard(ctx):
                 res.count("pushes")
                 if len(prefixes) > 1 or S:
                     res.nontrivial(lazy, sorted(covered.items()), sorted((p, tuple(sorted(r.items()))) for p, r in pmap.items()), sorted(S))
+                # every collect of this case may go into one and the same cache index (the caller keeps what it collected between a
+                # dry look and the real push, or between a failed round and its retry)
+                ckw = {}
+                if rng.random() < 0.25:
+                    from dvc_data.index import DataIndex as _DI
+
+                    ckw = {"cache_index": _DI(), "cache_key": ("collected",)}
+                    res.count("cases_collecting_into_one_cache_index")
                 before = remote_state()
                 for n, f in rfs.items():
                     f.fail_put = (lambda p, _o=remotes[n]: (os.path.relpath(p, _o.path).replace(os.sep, "") in S)) if S else None
-                pushed1, failed1 = push(collect([handed(lazify(idx, caches) if lazy else idx)], "remote", push=True))
+                pushed1, failed1 = push(collect([handed(lazify(idx, caches) if lazy else idx)], "remote", push=True, **ckw))
                 for f in rfs.values():
                     f.fail_put = None
                 mid = remote_state()
@@ -266,7 +274,7 @@ def run_shard(ctx):
                         res.violation("failures-not-counted", "uploads failed but push reported failed == 0", case=case, detail=info)
                 # clean retry
                 res.count("retries")
-                pushed2, failed2 = push(collect([handed(lazify(idx, caches) if lazy else idx)], "remote", push=True))
+                pushed2, failed2 = push(collect([handed(lazify(idx, caches) if lazy else idx)], "remote", push=True, **ckw))
                 after = remote_state()
                 if failed2:
                     res.violation("clean-retry-reports-failures", f"retry without faults reported failed={failed2}", case=case, detail=info)
@@ -327,7 +335,7 @@ def run_shard(ctx):
                             os.unlink(robjs[oid])
                             lost_total += 1
                 res.count("remote_objects_lost", lost_total)
-                pushed3, failed3 = push(collect([handed(lazify(idx, caches) if lazy else idx)], "remote", push=True))
+                pushed3, failed3 = push(collect([handed(lazify(idx, caches) if lazy else idx)], "remote", push=True, **ckw))
                 after3 = remote_state()
                 res.nontrivial("remote-loss", sorted(covered.items()), sorted((p, tuple(sorted(r.items()))) for p, r in pmap.items()), lost_total)
                 done = False
